@@ -36,6 +36,7 @@ type Shared struct {
 	Blocks   sync.Map // coverage: *ssa.BasicBlock -> struct{}
 	errorIface types.Type
 	jsonNumberT types.Type
+	yamlNodeT   *types.Struct
 	harnessFn  sync.Map
 	Tier       int
 }
@@ -120,6 +121,11 @@ func (m *Machine) global(g *ssa.Global) *value {
 	}
 	cell := new(value)
 	*cell = zero(mustDeref(g.Type()))
+	if g.Pkg != nil {
+		if v, ok := foreignGlobalInit(g.Pkg.Pkg.Path(), g.Name()); ok {
+			*cell = v
+		}
+	}
 	m.globals[g] = cell
 	return cell
 }
